@@ -34,13 +34,39 @@ class CoopLock:
         if sched is None or not sched.is_client_thread():
             return self._real.acquire(blocking, timeout)
         spins = 0
+        timed = timeout is not None and timeout >= 0
         while True:
             if self._real.acquire(False):
                 return True
             if not blocking:
                 return False
             spins += 1
-            sched.blocked_on_lock(spins)
+            if not sched.blocked_on_lock(spins, timed):
+                return False  # the (simulated) timeout elapsed
+
+    # what threading.Condition asks of its lock; cooperative like acquire()
+    def _release_save(self) -> Any:
+        rs = getattr(self._real, "_release_save", None)
+        if rs is not None:
+            return rs()  # RLock: (count, owner)
+        self._real.release()
+        return None
+
+    def _acquire_restore(self, state: Any) -> None:
+        if state is None:
+            self.acquire()
+            return
+        for _ in range(int(state[0])):
+            self.acquire()
+
+    def _is_owned(self) -> bool:
+        io = getattr(self._real, "_is_owned", None)
+        if io is not None:
+            return bool(io())
+        if self._real.acquire(False):
+            self._real.release()
+            return False
+        return True
 
     def release(self) -> None:
         self._real.release()
@@ -101,10 +127,19 @@ def _rlock() -> Any:
     return CoopLock(_REAL_RLOCK())
 
 
+def _alloc() -> Any:
+    """`threading._allocate_lock`: the waiter locks of Condition.wait (and through it Event, Semaphore,
+    Barrier).  Cooperative only when the waiting is done on behalf of the library under simulation."""
+    if _internal_caller():
+        return _REAL_LOCK()
+    return CoopLock(_REAL_LOCK())
+
+
 def install() -> None:
     global _installed
     if _installed:
         return
     threading.Lock = _lock  # type: ignore[assignment,misc]
     threading.RLock = _rlock  # type: ignore[assignment,misc]
+    threading._allocate_lock = _alloc  # type: ignore[attr-defined]
     _installed = True
